@@ -224,6 +224,15 @@ MixedRankCases(top) ==
        UNION {{C("bstack", "stack", t, ax, <<>>, <<>>) : ax \in (0 - (MaxRank(t) + 1))..MaxRank(t)} : t \in UNION {MixLists(n) : n \in 2..top}}
   \cup {C("bmulti", f, t, 0, <<>>, <<>>) : <<f, t>> \in {"sum", "prod", "min", "max", "mean"} \X UNION {MixLists(n) : n \in 2..top}}
   \cup {C("bbin", op, t, 0, <<>>, <<>>) : <<op, t>> \in {"add", "subtract", "multiply"} \X MixLists(2)}
+\* take with negative, repeated and out-of-range indices (scalar and sequence), every axis counted from both ends
+OddIndexCases(shapes) ==
+  UNION {IF ax < Len(sh) /\ 0 - ax <= Len(sh)
+         THEN LET n == sh[(IF ax < 0 THEN ax + Len(sh) ELSE ax) + 1] IN
+                 {C("take1", "take", <<a>>, ax, <<i>>, <<>>) : <<a, i>> \in Small(sh) \X {0 - 1, 0 - n, n, 0 - n - 1}}
+            \cup {C("taken", "take", <<a>>, ax, is, <<>>) : <<a, is>> \in Small(sh) \X
+                      {<<0 - 1, 0>>, <<0 - n, n - 1>>, <<0 - 1, 0 - 1>>, <<0, 0, 0>>, <<n>>, <<0, 0 - n - 1>>, <<n + 1, 0>>}}
+         ELSE {}
+         : sh \in shapes, ax \in (0 - 2)..1}
 NarrowCases(top) ==          \* (a parameter so that TLC does not evaluate it when it starts)
        {CD("multi", f, t, 0, <<>>, <<>>, "bool") : <<f, t>> \in UNION {NarrowOps \X Tuples(BoolPool(sh), n) : <<sh, n>> \in BoolShapes \X (2..top)}}
   \cup {CD("multi", f, t, 0, <<>>, <<>>, "i1") : <<f, t>> \in UNION {NarrowOps \X Tuples(I1Pool(sh), n) : <<sh, n>> \in I1Shapes \X (2..top)}}
@@ -234,7 +243,7 @@ ScalarArgs == {[shape |-> <<>>, data |-> <<v>>] : v \in {0 - 1, 2, 3}}
 
 Cases(maxArgs) ==
   \* f(a1..an): reduction over a new leading axis
-       {C("multi", f, t, 0, <<>>, <<>>) : <<f, t>> \in UNION {Reds \X Tuples(Pool(sh), n) : <<sh, n>> \in Shapes \X (2..maxArgs)}}
+       {C("multi", f, t, 0, <<>>, <<>>) : <<f, t>> \in UNION {Reds \X Tuples(IF n >= 3 /\ ProdSeq(sh) = 1 THEN Small(sh) ELSE Pool(sh), n) : <<sh, n>> \in Shapes \X (2..maxArgs)}}
   \* f(a) and f(a, axis): what NumPy gives for one array
   \cup {C("all", f, <<a>>, 0, <<>>, <<>>) : <<f, a>> \in UNION {Reds \X Pool(sh) : sh \in Shapes}}
   \cup UNION {IF ax < Len(sh) THEN {C("single", f, <<a>>, ax, <<>>, <<>>) : <<f, a>> \in Reds \X Pool(sh)} ELSE {}
@@ -262,6 +271,7 @@ Cases(maxArgs) ==
   \cup NarrowCases(3)
   \cup NegAxisCases(maxArgs)
   \cup MixedRankCases(3)
+  \cup OddIndexCases(Shapes)
 
 \* TLC evaluates every constant definition of a module when it starts, so each pass is guarded by IOEnv.PASS
 Generate == IOEnv.PASS = "generate" => (LET cs == SetToSeq(Cases(MaxArgs)) IN JsonSerialize(IOEnv.CASES_FILE, [i \in 1..Len(cs) |-> cs[i]]))
@@ -274,6 +284,8 @@ BShapeOf(args) == args[CHOOSE i \in DOMAIN args : \A j \in DOMAIN args : Len(arg
 BroadcastTo(a, sh) == MkArr(sh, LAMBDA idx : At(a, SubSeq(idx, Len(sh) - Len(a.shape) + 1, Len(sh))))
 BArgs(args) == [i \in DOMAIN args |-> BroadcastTo(args[i], BShapeOf(args))]
 BKinds == {"bstack", "bmulti", "bbin"}
+\* NumPy indexing: a negative index counts from the end; outside -n..n-1 the call raises IndexError (-1 here, see Post)
+NormIndex(i, n) == IF i >= n \/ i < 0 - n THEN 0 - 1 ELSE IF i < 0 THEN i + n ELSE i
 NormAxis(ax, rank) == IF ax < 0 THEN ax + rank ELSE ax            \* NumPy: a negative axis counts from the end
 Spec(c) == LET a == ArgsOf(c)
                ax == NormAxis(c.axis, Len(a[1].shape) + (IF c.k = "stack" THEN 1 ELSE 0)) IN
@@ -282,8 +294,9 @@ Spec(c) == LET a == ArgsOf(c)
     [] c.k = "single" -> ReduceAxis(c.op, a[1], ax)
     [] c.k = "stack" -> Stack(a, ax)
     [] c.k = "concat" -> Concat(a, ax)
-    [] c.k = "take1" -> Take(a[1], c.idx[1], ax)
-    [] c.k = "taken" -> TakeSeq(a[1], AsSeq(c.idx), ax)
+    [] c.k = "take1" -> LET i == NormIndex(c.idx[1], a[1].shape[ax + 1]) IN IF i < 0 THEN Err ELSE Take(a[1], i, ax)
+    [] c.k = "taken" -> LET is == [j \in DOMAIN c.idx |-> NormIndex(c.idx[j], a[1].shape[ax + 1])]
+                        IN IF \E j \in DOMAIN is : is[j] < 0 THEN Err ELSE TakeSeq(a[1], is, ax)
     [] c.k = "bin" -> IF c.dt = "i1" THEN WrapArr8(Binary(c.op, a[1], a[2])) ELSE Binary(c.op, a[1], a[2])
     [] c.k = "batched" -> Apply(c.op, a, c.axis)
     [] c.k = "bstack" -> Stack(BArgs(a), NormAxis(c.axis, Len(BShapeOf(a)) + 1))
@@ -308,6 +321,8 @@ PostOne(c, res, be, marked) ==
      ELSE IF c.k = "bmulti" /\ be = "np" THEN {}                 \* not defined by the array-API backend (ragged np.asarray)
      ELSE IF "skip" \in DOMAIN res THEN {}                      \* the backend's API has no such call (axis given by name)
      ELSE IF HasUndef(want) THEN n("outside_model_range")      \* cannot happen on this domain; never skip silently
+     \* NumPy has no value (an index out of range): the backend must raise IndexError as NumPy does
+     ELSE IF IsErr(want) THEN (IF "error" \in DOMAIN res /\ res.etype = "IndexError" THEN {} ELSE n("index_error_not_raised"))
      ELSE IF "error" \in DOMAIN res THEN n("raised")
      ELSE IF be = "xr" /\ c.k \in BKinds
      THEN LET gd == AsSeq(res.dims)
